@@ -120,6 +120,7 @@ func c11Alphabet() []c11Sym {
 		{"d2@1", 0, del(2, user(4), 1)},          // other bridge
 		{"d1@1x", 0, del(1, user(4), 1)},         // challenger of the OTHER bridge
 		{"p1low", 0, prop(1, 1, 0, -1, 7)},       // lower L2 block number
+		{"d1@1+1s", sec, del(1, user(2), 1)},     // challenger deletes from 1 one second later (partly final log)
 	}
 }
 
@@ -165,7 +166,7 @@ func genC11Exhaustive(rep *Report, tt *termTable, seed uint64, firstID int, alph
 			}
 			rep.Ops += len(ops)
 			rep.CountCase(strings.Join(l1OpsHuman(ops), "\n"), okP && errP)
-			if total == 1 || strings.Join(words, " ") == "p1 p1+1s d1@2+1s" {
+			if total == 1 || strings.Join(words, " ") == "p1 p1+1s d1@1+1s" {
 				rep.Sample(map[string]interface{}{"kind": "exhaustive script " + strings.Join(words, " "), "ops": l1OpsHuman(ops)})
 			}
 			texts = append(texts, l1CaseText(c, tt))
@@ -203,7 +204,7 @@ func genC11(seed uint64, tier, outdir string) *Report {
 	w.Propose, w.Delete, w.Claim, w.Deposit = 40, 16, 6, 8
 	w2 := w
 	w2.Create, w2.Propose, w2.Delete, w2.Claim, w2.Deposit, w2.Role, w2.AdvanceChance = 1, 50, 25, 4, 4, 8, 35
-	nA, nB, length, depth := 24, 24, 60, 3
+	nA, nB, length, depth := 20, 20, 60, 3
 	alphabet := c11Alphabet()
 	if tier == "thorough" {
 		nA, nB, length, depth = 300, 300, 120, 4
@@ -215,7 +216,7 @@ func genC11(seed uint64, tier, outdir string) *Report {
 	texts := genC11Exhaustive(rep, tt, seed, 1, alphabet, depth)
 	if tier == "thorough" {
 		// deeper, over the core alphabet (no redundant rejections)
-		core := []c11Sym{alphabet[0], alphabet[1], alphabet[2], alphabet[5], alphabet[6], alphabet[7]}
+		core := []c11Sym{alphabet[0], alphabet[1], alphabet[2], alphabet[5], alphabet[7], alphabet[12]}
 		texts = append(texts, genC11Exhaustive(rep, tt, seed, 1+len(texts), core, 5)...)
 	}
 	texts = append(texts, runRandomL1(rep, tt, seed, 1+len(texts), nA, length, w, nil, mons, interest)...)
